@@ -92,9 +92,24 @@ def decode_path(ctx, repo, cname, fname, reset_required):
         return
     ctx.ob("R1", f"{key}::append-site", True, "")
     A, ac = appends[0]
-    facts = g.guard_atoms(A)
-    on_statp = any((not p) and "startswith(STATQ_VERB)" in t for t, p in facts)
-    ctx.ob("R1", f"{key}::decode-only-on-STATP", on_statp, f"{fi.qual}: change records are decoded on the STATQ path too; guards {sorted(facts)}", loc(fi, A.ast))
+    # records are decoded from STATP messages only - by behaviour: a well-formed acknowledgement (STATQ + sequence byte 1;
+    # read as a STATP that byte announces one record) is delivered to a fresh handler: nothing is decoded, nothing raises
+    from ..absint import Interp as _I, Native as _N, Obj as _O, PyRaise as _PR, Undecided as _U
+    from . import c04 as _c04
+    _it = _I(repo, max_depth=10)
+    _sock = _O(None, {"queue_send": _N(lambda a, k: None), "get_and_increment_sequence_counter": _N(lambda a, k: 7)}, name="socket")
+    try:
+        _rx = _c04.new_handler(repo, _it, cname, [_sock]) if cname == ASYNC_H else _c04.fresh_handler(repo, _it, repo.cls(cname), _sock)
+        _it.steps = 0
+        _it.call(fi, _rx, [bytes(statq) + b"\x01", ("10.0.0.1", 10022)])
+        _got = _c04.read_field(_it, _rx, "changes")
+        on_statp = isinstance(_got, (list, tuple)) and len(_got) == 0
+        _why = f"decoded {_got!r}"
+    except _PR as e:
+        on_statp, _why = False, f"raises {e.what}"
+    except _U as e:
+        raise AnalysisError(f"{fi.qual}: a STATQ delivered to the handler cannot be interpreted: {e}")
+    ctx.ob("R1", f"{key}::decode-only-on-STATP", on_statp, f"{fi.qual}: a well-formed STATQ (sequence byte 1, which read as a STATP announces one record): {_why} - change records are decoded on the STATQ path too", loc(fi, A.ast))
     loop = g.loop_of(A)
     ctx.ob("R3", f"{key}::record-loop", loop is not None and loop.kind == "for", f"{fi.qual}: change records not decoded in a for loop", loc(fi, A.ast))
     statp_decodes_in_wire_order(ctx, repo, cname, fname)
